@@ -9,9 +9,9 @@ from vlib.pyround import to_quantum
 PID = 'C05'
 PROPERTY_FILE = 'Properties/C05.v'
 # generated model parts (translate/) this property's model / proofs really depend on
-GEN_DEPS = ['QuantityImpl', 'RoundingImpl']
+GEN_DEPS = ['OpsImpl', 'QuantityImpl', 'RoundingImpl']
 MODEL_TARGETS = Q.MODEL_TARGETS
-PROOF_TARGETS = ['Proofs/C05Proofs.vo']
+PROOF_TARGETS = ['Proofs/GenOpsEq.vo', 'Proofs/C05Proofs.vo']
 COQ_HEADER = Q.COQ_HEADER
 COQ_CHECK = Q.COQ_CHECK
 ISOLATE = True
